@@ -928,15 +928,10 @@ def _read_num(  # pylint: disable=too-many-locals,too-many-statements
         if s.endswith("M"):
             return decimal.Decimal(s[:-1])
         else:
-            sig = float(m) if "." in (m := match.group(1)) else int(m)
-            exp = int(match.group(2))
-            try:
-                res = sig * (10**exp)
-            except OverflowError:
-                raise ctx.syntax_error(
-                    f"Invalid number format: {s} is out of range for a float"
-                ) from None
-            return -res if neg else res
+            # Scientific notation always denotes a float (which is also how floats
+            # of large or small magnitude are printed), correctly rounded and
+            # infinite when out of range, exactly as Python reads the same text
+            return float(s)
     elif (match := arbitrary_base_literal.fullmatch(s)) is not None:
         base = int(match.group(1))
         if not 2 <= base <= 36:
